@@ -1254,8 +1254,18 @@ fn conv_exponent() -> BoxedStrategy<i64> {
     .boxed()
 }
 
+/// exponents far beyond the exact/ln-exp switch: the error of the scaled logarithm e·ln(B)/ln(NewB)
+/// grows with |e|, so a working precision that is adequate at |e| = 400 need not be at 10^5
+fn conv_exponent_far() -> BoxedStrategy<i64> {
+    (prop_oneof![3 => 401i64..=4_000, 3 => 4_001i64..=40_000, 3 => 40_001i64..=120_000], any::<bool>()).prop_map(|(e, s)| if s { -e } else { e }).boxed()
+}
+
 fn chg_base_case(base: u64, new: u64) -> impl Strategy<Value = ConvCase> {
-    (conv_precision(), (any::<u16>(), 0u8..9, any::<u64>(), any::<bool>(), 0u8..40), conv_exponent(), any_mode(), 0u8..10, 1u32..=60).prop_map(
+    chg_base_case_exp(base, new, conv_exponent())
+}
+
+fn chg_base_case_exp(base: u64, new: u64, exps: BoxedStrategy<i64>) -> impl Strategy<Value = ConvCase> {
+    (conv_precision(), (any::<u16>(), 0u8..9, any::<u64>(), any::<bool>(), 0u8..40), exps, any_mode(), 0u8..10, 1u32..=60).prop_map(
         move |(p, (ksel, pat, seed, neg, z), exp, mode, rel, raw)| {
             let x = conv_value(base, p, ksel, pat, seed, neg, exp, z == 0);
             let doc = doc_target_precision(base, new, p as u64) as u32;
@@ -1694,6 +1704,12 @@ fn main() {
         )*};
     }
     cb_subs!(2 3, 2 10, 2 16, 3 2, 3 10, 3 16, 10 2, 10 3, 10 16, 16 2, 16 3, 16 10);
+    macro_rules! cb_far_subs {
+        ($($b:literal $nb:literal),*) => {$(
+            ck.sub(concat!("change_base_far_", $b, "_to_", $nb), (160, 6_000), || chg_base_case_exp($b, $nb, conv_exponent_far()), |c: &ConvCase, ctx: &Ctx| by_mode!(c.mode, R => change_base::<R, $b, $nb>(c, ctx)));
+        )*};
+    }
+    cb_far_subs!(10 2, 2 10, 3 10, 16 3);
     ck.sub("from_ieee", (6_000, 120_000), ieee_case, from_ieee);
     ck.sub("print_precision_hexfloat_b2", (2_000, 40_000), || pp_case(2), |c: &PpCase, ctx: &Ctx| by_mode!(c.mode, R => print_precision_hex::<R>(c, ctx)));
     ck.finish();
